@@ -18,6 +18,13 @@ def fill (n seed : Nat) : Bytes := (List.range n).map (fillByte seed)
 
 def mkBlock (typ n seed : Nat) : Bytes := encTL typ ++ encTL n ++ fill n seed
 
+/-- listener legs: a block that is an Interest (harness/c11 `InterestBlock`) -/
+def mkInterestBlock (n seed : Nat) : Bytes :=
+  let comp := mkBlock 8 n seed
+  let name := [7] ++ encTL comp.length ++ comp
+  let body := name ++ [0x0a, 4, 1, 2, 3, 4]
+  [5] ++ encTL body.length ++ body
+
 def fnv64 (b : Bytes) : UInt64 :=
   b.foldl (fun h c => (h ^^^ c.toUInt64) * 0x100000001b3) 0xcbf29ce484222325
 
@@ -42,6 +49,7 @@ structure DSt where
   allImpl : List String := []   -- app spec: every frame digest the implementation reported at delivery
   sendMtu : Nat := 0            -- sockS: MTU of the SENDING transport
   plainUdp : Bool := false      -- sockS: the sender is a plain UDP socket of the harness (`new udp`)
+  lis : Bool := false           -- listener leg: blocks are Interests, frames = what reaches the forwarding thread
   blkQ : List Bytes := []       -- sockS: blocks defined and not yet handed to sendFrame
   sexpect : List (Nat × String) := []  -- sockS spec: blocks the sending transport must let through
   dead : Option String := none
@@ -127,6 +135,17 @@ def stepC11 (d : DSt) (op : String) (got : String) : StepResult DSt :=
       -- datagrams from a plain socket (no sending MTU): one block per `sf`
       { st := { kind := .sockS, sendMtu := 1073741824, plainUdp := true }, expected := some "ok", cov := [s!"new-{k}"] }
     else { st := {}, expected := some "bad-op" }
+  | ["new", "lis", k, life] =>
+    -- the face is made by the REAL listener (TCP listener: accept → transport → NDNLP link service;
+    -- WebSocket listener handler): the Interests sent must all reach the forwarding thread, whatever
+    -- the chunking, the message size or the age of the connection
+    if life.toNat?.isNone then { st := {}, expected := some "bad-op" }
+    else if k == "tcp" then { st := { kind := .sock, lis := true }, expected := some "ok", cov := ["new-lis-tcp"] }
+    else if k == "ws" then { st := { kind := .sockS, sendMtu := 1073741824, lis := true }, expected := some "ok", cov := ["new-lis-ws"] }
+    else { st := {}, expected := some "bad-op" }
+  | ["pause", ms] =>
+    if d.lis && ms.toNat?.isSome then { st := d, expected := some "ok", spec := crash, cov := ["lis-pause"] }
+    else { st := d, expected := some "skip" }
   | ["new", k, smtu, rmtu] =>
     -- send-side leg: blocks go through the sendFrame of a real transport with MTU <smtu>; the MTU
     -- <rmtu> of the receiving transport (possibly lower) must not matter
@@ -144,7 +163,7 @@ def stepC11 (d : DSt) (op : String) (got : String) : StepResult DSt :=
     if d.kind == .none then { st := d, expected := some "skip" } else
     match t.toNat?, n.toNat?, sd.toNat? with
     | some t, some n, some sd =>
-      let b := mkBlock t n sd
+      let b := if d.lis then mkInterestBlock n sd else mkBlock t n sd
       let d' := if d.kind == .sockS || d.kind == .appS then { d with blkQ := d.blkQ ++ [b] } else
                 { d with stream := d.stream ++ b, expect := d.expect ++ [(b.length, digest b)],
                          undelivered := d.undelivered + b.length }
